@@ -15,16 +15,15 @@ made the call).
     its value is the value of the expression; a pending abrupt outcome continues afterwards unless
     the `finally` block itself exits abruptly.
 
-`Cfg.stringifyAtFor = false` is the guide. `true` reproduces finding F-C04-6 of the implementation
-(an error crossing a `for`-consumed iterator is re-raised as a string) and is used only to
-attribute disagreements to that finding.
+`Cfg` is an (empty) record of evaluator options; the only configuration is the guide. (It used to
+carry a switch that reproduced finding F-C04-6 — errors re-raised as strings at `for` — which was
+repaired in /repo commit 08c98b7.)
 -/
 import KotoVerif.Model.TrySyntax
 
 namespace KotoVerif.Try
 
 structure Cfg where
-  stringifyAtFor : Bool := false
   deriving DecidableEq, Repr, Inhabited
 
 def guide : Cfg := {}
@@ -61,17 +60,6 @@ def errK (k : EK) : Val := .str (.err k)
 def accepts : Option Ty → Val → Bool
   | none, _ => true
   | some t, v => decide (v.ty = t)
-
-/-- What the implementation's `IterNext` does to an error coming out of an iterator. -/
-def strfy (cfg : Cfg) (v : Val) : Val :=
-  if cfg.stringifyAtFor then
-    match v with
-    | .null => .str .dispNull
-    | .bool b => .str (.dispBool b)
-    | .int i => .str (.dispInt i)
-    | .obj c => .str (.dispObj c)
-    | v => v
-  else v
 
 def insertByKey (k : Int) (v : Val) : List (Int × Val) → List (Int × Val)
   | [] => [(k, v)]
@@ -312,7 +300,7 @@ def run (cfg : Cfg) (P : Prog) : Nat → Task → St → Res
       match segs with
       | [] =>
         match run cfg P fuel (.ev tail) { σ with locals := gl } with
-        | (.err v, σ') => (.err (strfy cfg v), { σ' with locals := σ.locals })
+        | (.err v, σ') => (.err v, { σ' with locals := σ.locals })
         | (.oof, σ') => (.oof, { σ' with locals := σ.locals })
         | (_, σ') => (.ok .null, { σ' with locals := σ.locals })
       | (pre, yv) :: rest =>
@@ -324,7 +312,7 @@ def run (cfg : Cfg) (P : Prog) : Nat → Task → St → Res
           | (.cont, σ'') => run cfg P fuel (.loopG x gl' rest tail body) σ''
           | (.brk, σ'') => (.ok .null, σ'')
           | r => r
-        | (.err v, σ') => (.err (strfy cfg v), { σ' with locals := σ.locals })
+        | (.err v, σ') => (.err v, { σ' with locals := σ.locals })
         | (.oof, σ') => (.oof, { σ' with locals := σ.locals })
         | (_, σ') => (.ok .null, { σ' with locals := σ.locals })
 
